@@ -760,11 +760,10 @@ Definition step (s : state) (o : op) : state * res :=
                 else if negb (obj_bool ob CKA_MODIFIABLE true) then (s, RRv CKR_ACTION_PROHIBITED)
                 else if negb (tmpl_wellformed tm) || negb (obj_ulong ob CKA_CLASS CKO_VENDOR_DEFINED =? CKO_DATA) then (s, RUnmodelled)
                 else
-                  (* a session object has no working abortTransaction (known finding F2): the model
-                     refuses to predict failing templates on session objects *)
+                  (* token objects re-read their file on abort; session objects restore the copy taken at
+                     startTransaction (fix F2): a rejected template leaves the object as it was *)
                   let (rv1, o1) := save_template (tctx_of s (s_tok x)) true (o_private ob) tm OBJECT_OP_SET ob in
-                  if rv1 =? CKR_OK then (put_object s loc o1, RRv CKR_OK)
-                  else match loc with LTok _ _ => (s, RRv rv1) | LSess _ => (s, RUnmodelled) end
+                  if rv1 =? CKR_OK then (put_object s loc o1, RRv CKR_OK) else (s, RRv rv1)
             end
         end
     | OCopy h oh tm =>
